@@ -360,6 +360,65 @@ Section Image.
 End Image.
 
 (* ------------------------------------------------------------------------------------------ *)
+(** * Old-style run-length coder of 8-bit rasters (hdf/src/dfrle.c), limits regenerated from the source *)
+
+(** number of leading elements of [l] equal to [b], at most [cap] (the scan loop of DFCIrle) *)
+Fixpoint run_len (b : nat) (l : list nat) (cap : nat) : nat :=
+  match cap, l with
+  | S c, x :: r => if x =? b then S (run_len b r c) else 0
+  | _, _ => 0
+  end.
+
+(** pending literal bytes: count byte (uint8) followed by the bytes *)
+Definition rle_flush (lit : list nat) : list nat :=
+  match lit with [] => [] | _ => (length lit mod 256) :: lit end.
+
+(** DFCIrle: [data] = bytes still to encode, [lit] = literal bytes copied since [begp].  A run of more than
+    dfrle_min_run equal bytes (scanned while "i + dfrle_run_window > len") is emitted as
+    (uint8)(dfrle_run_flag | run), byte; other bytes are copied and flushed when more than dfrle_lit_flush. *)
+Fixpoint rle_go (fuel : nat) (data lit : list nat) : list nat :=
+  match fuel with
+  | 0 => rle_flush lit
+  | S f =>
+    match data with
+    | [] => rle_flush lit
+    | b :: rest =>
+      let r := S (run_len b rest (dfrle_run_window - 1)) in
+      if dfrle_min_run <? r then
+        rle_flush lit ++ [Nat.lor dfrle_run_flag (r mod 256) mod 256; b] ++ rle_go f (skipn r data) []
+      else
+        let lit' := lit ++ [b] in
+        if dfrle_lit_flush <? length lit' then rle_flush lit' ++ rle_go f rest [] else rle_go f rest lit'
+    end
+  end.
+
+Definition dfrle_encode (row : list nat) : list nat := rle_go (length row) row [].
+
+(** DFCIunrle as a byte-at-a-time decoder: count byte, then literals or the byte to repeat *)
+Inductive dstate := DIdle | DLit (k : nat) | DRun (c : nat).
+
+Fixpoint unrle_sm (st : dstate) (enc : list nat) : list nat :=
+  match enc with
+  | [] => []
+  | x :: r =>
+    match st with
+    | DIdle => if Nat.land x dfrle_dec_flag =? 0
+               then match x with 0 => unrle_sm DIdle r | _ => unrle_sm (DLit x) r end
+               else unrle_sm (DRun (Nat.land x dfrle_dec_mask)) r
+    | DLit k => x :: unrle_sm (match k with S (S k') => DLit (S k') | _ => DIdle end) r
+    | DRun c => repeat x c ++ unrle_sm DIdle r
+    end
+  end.
+
+Definition dfrle_decode (enc : list nat) : list nat := unrle_sm DIdle enc.
+
+(** an RLE raster is compressed row by row (DFputcomp) and expanded row by row (DFgetcomp) *)
+Definition rows_of (w h : nat) (bytes : list nat) : list (list nat) :=
+  map (fun y => map (fun x => nth (y * w + x) bytes 0) (seq 0 w)) (seq 0 h).
+Definition rle_image_encode (w h : nat) (bytes : list nat) : list (list nat) := map dfrle_encode (rows_of w h bytes).
+Definition rle_image_decode (enc : list (list nat)) : list nat := concat (map dfrle_decode enc).
+
+(* ------------------------------------------------------------------------------------------ *)
 (** * History level (what the drivers run): images with bytes                                   *)
 
 Definition comp := list Z.
@@ -385,7 +444,7 @@ Definition group (cs n : nat) (bytes : list Z) : list comp :=
 
 Definition codec (swap : bool) (c : comp) : comp := if swap then rev c else c.
 
-Inductive storage := StPlain | StComp | StChunk.
+Inductive storage := StPlain | StComp | StChunk | StRle8 | StOld24.
 
 Record mimg := { m_g : geom; m_wil : ilace; m_ril : ilace; m_fill : option (list comp);
                  m_elt : option (list (list comp)); m_store : storage;
@@ -543,3 +602,102 @@ Definition v_walk (inil outil : ilace) (X Y nc cs : nat) (bytes : list Z) : list
   il_convert_walk inil outil X Y nc cs bytes (repeat 170%Z (length bytes)).
 Definition v_spec (inil outil : ilace) (X Y nc cs : nat) (bytes : list Z) : list Z :=
   il_convert_spec 0%Z inil outil X Y nc cs bytes.
+
+(** Old-style rasters written by DFR8addimage (1 component, optionally RLE) / DF24addimage (3 components,
+    pixel interlace) and then accessed through GR: uint8 components (GRgetiminfo reports DFNT_UCHAR8). *)
+Definition legacy_geom (w h nc : nat) : geom :=
+  {| gx := w; gy := h; gnc := nc; gcs := 1; gswap := false; gnt := DFNT_UCHAR8 |}.
+
+Definition m_legacy (w h nc : nat) (rle : bool) (bytes : list Z) : mimg :=
+  let stored := if rle then map Z.of_nat (rle_image_decode (rle_image_encode w h (map Z.to_nat bytes))) else bytes in
+  {| m_g := legacy_geom w h nc; m_wil := ILpixel; m_ril := ILpixel; m_fill := None;
+     m_elt := Some (chunk_px [] nc (w * h) (group 1 (w * h * nc) stored));
+     m_store := if rle then StRle8 else StOld24; m_lut := None; m_lil := ILpixel |}.
+
+Definition s_legacy (w h nc : nat) (bytes : list Z) : simg :=
+  {| s_g := legacy_geom w h nc; s_wil := ILpixel; s_ril := ILpixel; s_fill := None;
+     s_data := Some (chunk_px [] nc (w * h) (group 1 (w * h * nc) bytes)); s_lut := None; s_lil := ILpixel |}.
+
+(** raw element of an RLE raster: the rows' encodings, concatenated *)
+Definition m_dump_rle (m : mimg) : option (list Z) :=
+  match m_elt m with
+  | None => None
+  | Some e => Some (map Z.of_nat (concat (rle_image_encode (gx (m_g m)) (gy (m_g m))
+                                                           (map Z.to_nat (concat (concat e))))))
+  end.
+
+(** direct DFCIrle / DFCIunrle on one row: (decoded, encoded) *)
+Definition u_case (row : list Z) : list Z * list Z :=
+  let enc := dfrle_encode (map Z.to_nat row) in
+  (map Z.of_nat (dfrle_decode enc), map Z.of_nat enc).
+
+(* ------------------------------------------------------------------------------------------ *)
+(** * GRwritechunk / GRreadchunk
+    GRsetchunk hands the chunked-element layer the dimensions (xdim, ydim) in that order, so the chunk grid is
+    laid over the element seen as an [xdim] x [ydim] row-major array: chunk (o0, o1) with lengths (c0, c1) holds
+    the pixels with linear index (o0*c0 + l / c1) * ydim + (o1*c1 + l mod c1), l < c0*c1, in that order.
+    The caller's buffer is converted between its interlace and pixel interlace with GRIil_convert using the
+    chunk lengths as dimensions.  Only chunk lengths that divide the image dimensions are in the domain. *)
+
+Definition chunk_cell (ydim c0 c1 o0 o1 l : nat) : nat := (o0 * c0 + l / c1) * ydim + (o1 * c1 + l mod c1).
+
+Definition chunk_inside (xdim ydim c0 c1 o0 o1 : nat) : bool :=
+  (1 <=? c0) && (1 <=? c1) && ((o0 + 1) * c0 <=? xdim) && ((o1 + 1) * c1 <=? ydim).
+
+(** chunk-local index of linear pixel [p], if it lies in chunk (o0, o1) *)
+Definition cell_of (ydim c0 c1 o0 o1 p : nat) : option nat :=
+  let a := p / ydim in
+  let b := p mod ydim in
+  if (a / c0 =? o0) && (b / c1 =? o1) then Some ((a mod c0) * c1 + b mod c1) else None.
+
+Definition put_chunk {T} (t0 : T) (img : list T) (xdim ydim c0 c1 o0 o1 : nat) (px : list T) : list T :=
+  map (fun p => match cell_of ydim c0 c1 o0 o1 p with Some l => nth l px t0 | None => nth p img t0 end)
+      (seq 0 (xdim * ydim)).
+
+Definition get_chunk {T} (t0 : T) (img : list T) (ydim c0 c1 o0 o1 : nat) : list T :=
+  map (fun l => nth (chunk_cell ydim c0 c1 o0 o1 l) img t0) (seq 0 (c0 * c1)).
+
+Definition m_writechunk (m : mimg) (c0 c1 o0 o1 : nat) (bytes : list Z) : option mimg :=
+  let g := m_g m in
+  match m_elt m with
+  | Some e =>
+    let user := group (gcs g) (c0 * c1 * gnc g) bytes in
+    let pixbuf := if il_eqb (m_wil m) ILpixel then user
+                  else il_convert_walk (m_wil m) ILpixel c0 c1 (gnc g) 1 user (repeat [] (length user)) in
+    let px := chunk_px [] (gnc g) (c0 * c1) (map (codec (gswap g)) pixbuf) in
+    Some (m_set_elt m (Some (put_chunk [] e (gx g) (gy g) c0 c1 o0 o1 px)) (m_store m))
+  | None => None
+  end.
+
+Definition s_writechunk (s : simg) (c0 c1 o0 o1 : nat) (bytes : list Z) : option simg :=
+  let g := s_g s in
+  match s_data s with
+  | Some img =>
+    if chunk_inside (gx g) (gy g) c0 c1 o0 o1 && (length bytes =? c0 * c1 * gnc g * gcs g) then
+      let user := group (gcs g) (c0 * c1 * gnc g) bytes in
+      Some (s_set_data s (Some (put_chunk [] img (gx g) (gy g) c0 c1 o0 o1
+                                          (user_pixels (repeat 0%Z (gcs g)) (s_wil s) c0 c1 (gnc g) user))))
+    else None
+  | None => None
+  end.
+
+Definition m_readchunk (m : mimg) (c0 c1 o0 o1 : nat) : option (list Z) :=
+  let g := m_g m in
+  match m_elt m with
+  | Some e =>
+    let mem := map (codec (gswap g)) (concat (get_chunk [] e (gy g) c0 c1 o0 o1)) in
+    Some (concat (if il_eqb (m_ril m) ILpixel then mem
+                  else il_convert_walk ILpixel (m_ril m) c0 c1 (gnc g) 1 mem (repeat [] (length mem))))
+  | None => None
+  end.
+
+Definition s_readchunk (s : simg) (c0 c1 o0 o1 : nat) : option (list Z) :=
+  let g := s_g s in
+  match s_data s with
+  | Some img =>
+    if chunk_inside (gx g) (gy g) c0 c1 o0 o1 then
+      Some (concat (il_convert_spec (repeat 0%Z (gcs g)) ILpixel (s_ril s) c0 c1 (gnc g) 1
+                                    (concat (get_chunk [] img (gy g) c0 c1 o0 o1))))
+    else None
+  | None => None
+  end.
